@@ -136,6 +136,155 @@ def ground_axioms(enc, ob):
             add("sin^2 + cos^2 = 1", f"(= (+ (* {N(i)} {N(i)}) (* {N(coss[x])} {N(coss[x])})) 1.0)")
     for x, i in coss.items():
         add("|cos| <= 1", f"(and (<= (- 1.0) {N(i)}) (<= {N(i)} 1.0))")
+    import math
+    PI = math.pi
+    basic_len = len(ax)   # everything appended from here on is the extended (trigonometric relation) stage
+
+    def ival(i, memo={}):
+        """Crude interval of a node (for error bounds of angle arguments)."""
+        key = (id(nodes), i)
+        if key in memo:
+            return memo[key]
+        n = nodes[i]
+        op = n[0]
+        inf = float("inf")
+        r = (-inf, inf)
+        if op == "const":
+            v = cval(nodes, i)
+            r = (v, v)
+        elif op == "var":
+            v = ob["vars"][n[1]]
+            r = (v["lo"], v["hi"])
+        elif op in ("add", "sub", "mul"):
+            a, b = ival(n[1]), ival(n[2])
+            if op == "add":
+                r = (a[0] + b[0], a[1] + b[1])
+            elif op == "sub":
+                r = (a[0] - b[1], a[1] - b[0])
+            else:
+                c = [x * y for x in a for y in b if not (math.isinf(x) and y == 0) and not (math.isinf(y) and x == 0)]
+                r = (min(c), max(c)) if c and not any(math.isnan(x) for x in c) else (-inf, inf)
+        elif op == "neg":
+            a = ival(n[1])
+            r = (-a[1], -a[0])
+        elif op == "atan2":
+            r = (-PI, PI)
+        elif op in ("sin", "cos"):
+            r = (-1.0, 1.0)
+        elif op in ("min", "max"):
+            a, b = ival(n[1]), ival(n[2])
+            r = (min(a[0], b[0]), min(a[1], b[1])) if op == "min" else (max(a[0], b[0]), max(a[1], b[1]))
+        elif op == "abs":
+            a = ival(n[1])
+            r = (0.0, max(abs(a[0]), abs(a[1])))
+        memo[key] = r
+        return r
+
+    def lin(i):
+        """(alpha, atom, beta) with node = alpha*atom + beta, atom a non-affine node id (or None)."""
+        n = nodes[i]
+        op = n[0]
+        if op == "const":
+            return (0.0, None, cval(nodes, i))
+        if op in ("add", "sub"):
+            a, b = lin(n[1]), lin(n[2])
+            sg = 1.0 if op == "add" else -1.0
+            if a[1] is None or b[1] is None or a[1] == b[1]:
+                return (a[0] + sg * b[0], a[1] if a[1] is not None else b[1], a[2] + sg * b[2])
+            return (1.0, i, 0.0)
+        if op == "neg":
+            a = lin(n[1])
+            return (-a[0], a[1], -a[2])
+        if op == "mul":
+            ca, cb = cval(nodes, n[1]), cval(nodes, n[2])
+            if ca is not None:
+                b = lin(n[2])
+                return (ca * b[0], b[1], ca * b[2])
+            if cb is not None:
+                a = lin(n[1])
+                return (cb * a[0], a[1], cb * a[2])
+        if op == "div":
+            cb = cval(nodes, n[2])
+            if cb not in (None, 0.0):
+                a = lin(n[1])
+                return (a[0] / cb, a[1], a[2] / cb)
+        return (1.0, i, 0.0)
+
+    def fsin(t):
+        enc.used_uf.add("sin")
+        return f"(f_sin {t})"
+
+    def fcos(t):
+        enc.used_uf.add("cos")
+        return f"(f_cos {t})"
+
+    def absle(e, bound):
+        return f"(and (<= (- {fr(bound)}) {e}) (<= {e} {fr(bound)}))"
+
+    # (A) defining relations of atan2
     for (y, x), i in apps.get("atan2", []):
-        add("atan2 in [-pi, pi]", f"(and (<= (- 3.1415926535897936) {N(i)}) (<= {N(i)} 3.1415926535897936))")
-    return ax, sorted(names)
+        T = N(i)
+        add("atan2 in [-pi, pi]", f"(and (<= (- 3.1415926535897936) {T}) (<= {T} 3.1415926535897936))")
+        r = f"r_at{i}"
+        ax.append(f"(declare-const {r} Real)")
+        add("r = hypot(x,y): r cos(atan2(y,x)) = x, r sin(atan2(y,x)) = y, sin^2 + cos^2 = 1, atan2(0,0) = 0",
+            f"(and (>= {r} 0.0) (= (* {r} {r}) (+ (* {N(x)} {N(x)}) (* {N(y)} {N(y)}))) (= (* {r} {fcos(T)}) {N(x)}) (= (* {r} {fsin(T)}) {N(y)}) "
+            f"(= (+ (* {fsin(T)} {fsin(T)}) (* {fcos(T)} {fcos(T)})) 1.0) (=> (and (= {N(x)} 0.0) (= {N(y)} 0.0)) (= {T} 0.0)))")
+    # equal squares of non-negative numbers: identify r with an existing sqrt node of the same radicand
+    for (y, x), i in apps.get("atan2", []):
+        for j, n in enumerate(nodes):
+            if n[0] == "sqrt" and j in enc.done:
+                add("non-negative numbers with equal squares are equal (r = hypot identified with the code's sqrt)",
+                    f"(=> (= (* r_at{i} r_at{i}) {N(n[1])}) (= r_at{i} {N(j)}))")
+    # (B) sin/cos of an argument that is (1+d)*u + m*pi + e for a bounded atom u: compare with sin/cos(u)
+    for fn in ("sin", "cos"):
+        for (t,), i in apps.get(fn, []):
+            alpha, atom, beta = lin(t)
+            if atom is None or atom == t or abs(alpha - 1.0) > 1e-9:
+                continue
+            m = round(beta / PI)
+            if abs(beta - m * PI) > 1e-9 or abs(m) > 4:
+                continue
+            lo, hi = ival(atom)
+            U = max(abs(lo), abs(hi))
+            if math.isinf(U):
+                continue
+            E = abs(alpha - 1.0) * U + abs(beta - m * PI) + 1e-15
+            sign = "" if m % 2 == 0 else "- "
+            ref = fsin(N(atom)) if fn == "sin" else fcos(N(atom))
+            refs = f"({sign}{ref})" if sign else ref
+            add("sin/cos are 1-Lipschitz and (anti)periodic: |f(u(1+d) + m pi + e) - (-1)^m f(u)| <= |d| sup|u| + |e|",
+                absle(f"(- {N(i)} {refs})", E))
+            add("sin^2 + cos^2 = 1", f"(= (+ (* {fsin(N(atom))} {fsin(N(atom))}) (* {fcos(N(atom))} {fcos(N(atom))})) 1.0)")
+            if nodes[atom][0] == "atan2":
+                # direct consequence of (A) and the bound above: r f(t) = (-1)^m (x | y) up to r E
+                yy, xx = nodes[atom][1], nodes[atom][2]
+                comp = xx if fn == "cos" else yy
+                ly, lx = ival(yy), ival(xx)
+                rmax = math.hypot(max(abs(ly[0]), abs(ly[1])), max(abs(lx[0]), abs(lx[1])))
+                if not math.isinf(rmax):
+                    target = f"(- {N(comp)})" if sign else N(comp)
+                    add("r f(atan2(y,x) shifted) = +-(x|y) up to r E (consequence of the two axioms above)",
+                        absle(f"(- (* r_at{atom} {N(i)}) {target})", E * rmax + 1e-300))
+    # (C) atan2 of a vector parallel to (sin t, cos t)
+    kcount = 0
+    for (y, x), i in apps.get("atan2", []):
+        for t, si in sins.items():
+            if t not in coss:
+                continue
+            S, Cc, T = N(si), N(coss[t]), N(i)
+            lo, hi = ival(t)
+            if math.isinf(lo) or math.isinf(hi):
+                continue
+            K = int((max(abs(lo), abs(hi)) + PI) / (2 * PI)) + 2
+            k = f"k_at{kcount}"
+            kcount += 1
+            ax.append(f"(declare-const {k} Int)")
+            ax.append(f"(assert (and (<= (- {K}) {k}) (<= {k} {K})))")
+            par = f"(= (* {N(y)} {Cc}) (* {N(x)} {S}))"
+            dot = f"(+ (* {N(y)} {S}) (* {N(x)} {Cc}))"
+            tol = 1e-12
+            add("atan2(y,x) = t (mod 2 pi) when (y,x) is a positive multiple of (sin t, cos t); = t + pi when a negative multiple",
+                f"(and (=> (and {par} (> {dot} 0.0)) {absle(f'(- {T} {N(t)} (* {fr(2 * PI)} (to_real {k})))', tol)}) "
+                f"(=> (and {par} (< {dot} 0.0)) {absle(f'(- {T} {N(t)} {fr(PI)} (* {fr(2 * PI)} (to_real {k})))', tol)}))")
+    return ax[:basic_len], ax[basic_len:], sorted(names)
